@@ -95,6 +95,10 @@ pub fn run(out: &mut Out, tier: &str, rng: &mut Rng) {
         if i % 3 == 0 {
             sess::run_case_wfail(out, &inst, "sess", &[Ev::Bytes(stream.clone())], nf >= 2);
         }
+        // … and with a client that takes only a few bytes per write
+        if i % 3 == 1 {
+            sess::run_case_window(out, &inst, "sess", &[Ev::Bytes(stream.clone())], nf >= 2, 1 + i % 9);
+        }
         // byte by byte (skip for the 1 KiB payloads in the quick tier)
         if !big || thorough && i % 10 == 0 {
             let cuts: Vec<usize> = (1..stream.len()).collect();
